@@ -59,7 +59,10 @@ def run(ctx):
         return None
     UP = bool_local_from(r"^upgrade$")
     EX = bool_local_from(r"^100-continue$")
-    ctx.require(UP is not None and EX is not None, "C03.1: upgrade / expects-continue locals not identified (%s, %s)" % (UP, EX))
+    if UP is None or EX is None:
+        ctx.ob("C03.1", "%s|framing-table" % f.id, "the framing decision is made on the recognised predicates (Connection value lower-cased contains `upgrade`; Expect equals `100-continue` ignoring case)",
+               False, "%s:%d" % (f.file, f.line), "the %s predicate of new_request is not the one ClientConnection::next uses for the same header (the two sites would disagree on which request ends the connection / owns the raw stream)" % ("upgrade" if UP is None else "Expect"))
+        return finish_c03(ctx, facts, f, f.dominators(False))
     # start: first switch that reads UP after all header lookups (dominates the Request construction)
     dom = f.dominators(False)
     starts = [b for b in dom[rc] if bool_switch(f, b) and any(x == ("local", UP) for x in origin_walk(f.origin(bool_switch(f, b)[0])))]
